@@ -178,6 +178,29 @@ PROPS['C01'] = dict(
                "factory-built instances (no shared state), not by separate OS processes in the quick tier. Axioms: none.",
 )
 
+BRANCH_NAMES['outcodec'] = ['encode_ok', 'encode_err', 'mutated_msg_decodes', 'mutated_msg_rejected']
+PROPS['C10'] = dict(
+    level='proof',
+    projections=[dict(name='outcodec', spec_index=1, n_quick=450, n_thorough=9000)],
+    rule="outcodec: outcomes for both codec versions with 0..8 channels (one with 40, thorough 2000), ids/formats/stream ids over the full "
+         "uint32 range incl. boundaries, opts bytes, validity starts over the full uint64 range (v1) and around the uint32-seconds limit (v0), "
+         "timestamps around MaxInt64, aggregates of every value type incl. negative, huge-scale, negative-zero decimals and nested timestamped "
+         "values; each encoded, re-encoded from rebuilt maps, decoded, re-encoded; plus structure-aware mutated messages (nil definitions, "
+         "duplicate ids, nil/unknown/negative-typed values, truncated decimals, wrong gob version, negative timestamp). Distinct by SHA-1.",
+    explanation="Theorems C10_* prove the protobuf wire layer round-trip (varints, fields), the binary round-trip of every stream value, that "
+                "the flattened slices are canonical (sorted by distinct ids, any map order), that decoding any byte string is total (never a "
+                "panic) and that version 0 only encodes representable values. The byte-level model of both codecs is compared with the Go "
+                "codecs on every run (Encode bytes predicted exactly, Decode structure), and the C10 predicate (fields preserved, v0 seconds, "
+                "canonical, decode-then-encode stable, no panic) is evaluated on the Go results. PARTIAL: the composed whole-outcome "
+                "round-trip is not yet a single Coq theorem.",
+    assumptions=["protobuf-go byte-level decoding of arbitrary input is as modelled in Wire.v (compared on generated and mutated messages)",
+                 "lifecycle stage strings are ASCII (reachable states hold three ASCII constants)"],
+    level_text="Coq theorems for the wire layer, stream-value round-trip, canonical ordering, total decoding and v0 range errors over a "
+               "byte-level model of the two outcome codecs; model tied to the Go codecs by byte-exact differential testing. The composed "
+               "decode(encode o) statement is checked on the implementation, not yet proved (partial).",
+    level_note="Trusted: Coq kernel + vm_compute; hand-written byte-level model of protobuf-go marshalling for these messages; harness. Axioms: none.",
+)
+
 
 def load_known_findings(root):
     p = os.path.join(root, 'known_findings.jsonl')
